@@ -619,6 +619,19 @@ def slice_iter(c):
     src = c.deref(c.args[0])
     if isinstance(src, Seq) and c.it.track_content and (isinstance(src.items, Empty) or c.st.sys.entails_eq(src.len)):
         return [(c.st, Iter(Lin.const(0), False, "iter", None, Struct({}, tag="elems")))]
+    if isinstance(src, Seq) and c.it.byte_defs and "iter_mut" not in c.name and src_atom(src.content()) and not str(src.content()[0]).startswith("@"):
+        n_ = c.st.sys.const_value(src.len)
+        at_ = c.arg_ty(0)
+        at_ = c.fr.body.ty(at_["to"]) if at_.get("k") in ("ref", "ptr") else at_
+        if n_ is not None and 0 < n_ <= 16 and at_.get("k") in ("slice", "array") and int_range(c.fr.body.ty(at_["of"])) == (0, 255):
+            # a short window of an identified content: its bytes one by one
+            from absint.models_content import byte_var
+            refs = {}
+            for i in range(int(n_)):
+                cell = "%s/%d.%d:ib%d" % (c.fr.id, c.bb, c.part, i)
+                c.st.cells[cell] = Num(byte_var(c, src.content(), i))
+                refs[i] = Ref(cell)
+            return [(c.st, Iter(src.len, False, "iter", None, Struct(refs, tag="elems")))]
     if isinstance(src, Seq) and is_listed(src.items) and c.it.track_content and "iter_mut" not in c.name:
         # a short list whose elements are known one by one: the iterator hands out references to them, in order
         refs = {}
@@ -744,6 +757,9 @@ def byteorder_rw(c):
             c.st.sys.add_range(e, lo_, hi_)
             c.it.purefun[name] = set(w[1].t)
             c.it.contents.setdefault("reads", {})[name] = (w[0], w[1], n)
+            if c.it.byte_defs and not str(w[0]).startswith("@"):
+                from absint.models_content import define_over_bytes
+                define_over_bytes(c, e, w, n)
             if c.it.track_content:
                 # the value read and where it was read stay among the facts of the path
                 # (one cell per read site: the latest read there; joins across loop iterations keep what they agree on)
